@@ -3,7 +3,7 @@
 driving MqttSink of a real connection over IoTest) against the extracted Coq model Model/Sink.v
 (ocaml/driver run 31 / 32) on generated operation sequences (tools/gen_sink.py).
 
-usage: diff_sink.py [--seed N] [--versions 3,5] [--roles 0] [--exh-len 6] [--exh-limit N] [--random N] [--qos2 N]
+usage: diff_sink.py [--seed N] [--versions 3,5] [--roles 0,1] [--exh-len 6] [--exh-limit N] [--random N] [--qos2 N] [--quiesced N]
                     [--show N] [--dump-dir DIR] [--sim] [--no-build] [--cases FILE]
 exit 0 when every observation is identical on both sides, 1 otherwise, 2 when the machinery is broken.
 Besides the comparison it scans the implementation's observations for behaviour that is wrong whatever the
@@ -51,14 +51,39 @@ def anomalies(case, obs):
     if obs == C.PANIC:
         return [("panic", 0)]
     ops = case.split(";")[1:]
+    sent = {}       # task -> (wire tag, packet id, op index of the send)
+    acks = []       # (op index, kind, id)
+    prev = {}
     for i, f in enumerate(obs.split(";")):
         n = f.split(",")
         if len(n) < 9:
             continue
+        op = [int(x) for x in ops[i].split(",")] if i < len(ops) and ops[i] else [0]
+        if op[0] in (4, 5):
+            acks += [(i, op[j], op[j + 1] % 65536) for j in range(1, len(op) - 1, 2)]
+        if "255" in n:
+            w = [int(x) for x in n[n.index("255") + 1:]]
+            if op[0] in (1, 2) and len(op) > 1:
+                for j in range(0, len(w) - 1, 2):
+                    if w[j] in (1, 2, 5, 6):
+                        sent[op[1]] = (w[j], w[j + 1], i)
+            b = [int(x) for x in n[8:n.index("255")]]
+            cur = {b[j]: b[j + 1] for j in range(0, len(b) - 1, 2)}
+            for t, st in cur.items():
+                if t < 100 and st == 2 and prev.get(t) == 1 and t in sent and op[0] == 2:
+                    tag, pid, at = sent[t]
+                    want = {1: 1, 2: 2, 5: 4, 6: 5}[tag]
+                    if op[0] == 2 and prev.get(("rel", t)):
+                        want = 3
+                    if not any(a > at and k == want and q == pid for a, k, q in acks):
+                        res.append(("completed Ok without the matching acknowledgement", i))
+            if op[0] == 6 and len(op) > 1 and prev.get(op[1]) == 2 and cur.get(op[1]) == 1:
+                prev[("rel", op[1])] = True
+            prev.update(cur)
         inflight, cap = int(n[0]), int(n[2])
         wire = n[n.index("255") + 1:] if "255" in n else []
-        sent = [int(wire[j]) for j in range(0, len(wire) - 1, 2)]
-        if inflight > cap and any(t in (1, 2, 5, 6) for t in sent) and i < len(ops) and not ops[i].startswith("9"):
+        wtags = [int(wire[j]) for j in range(0, len(wire) - 1, 2)]
+        if inflight > cap and any(t in (1, 2, 5, 6) for t in wtags) and i < len(ops) and not ops[i].startswith("9"):
             res.append(("more than cap outstanding after a send", i))
         body = n[8:n.index("255")] if "255" in n else []
         # (the id counter preset to 65535 by the hook is not a reachable state: next_id overflows by construction)
@@ -67,7 +92,7 @@ def anomalies(case, obs):
     return res
 
 
-def compare(engine, ver, cases, show, dump_dir, sim):
+def compare(engine, ver, cases, show, dump_dir, sim, stuck=False):
     t0 = time.time()
     impl = C.run_harness(engine, cases)
     t1 = time.time()
@@ -91,6 +116,16 @@ def compare(engine, ver, cases, show, dump_dir, sim):
     for tag, l in an.items():
         l.sort()
         print("  ANOMALY (implementation) %s: %d cases, shortest: %s (operation %d)" % (tag, len(l), l[0][1], l[0][2] + 1))
+    if stuck:
+        st = collections.defaultdict(list)
+        for c, o in zip(cases, impl):
+            r = G.stuck_report(ver, c, o)
+            if r:
+                st[r[0]].append((len(c), c, r[1]))
+        for why, l in sorted(st.items()):
+            l.sort()
+            print("  STUCK at quiescence (window open, everything acknowledged) cause %s: %d cases, shortest: %s (task %d)"
+                  % (why, len(l), l[0][1], l[0][2]))
     if sim:
         sd = [i for i in range(len(cases)) if G.run_sim(ver, cases[i]) != model[i]]
         print("   python Sim vs model: %d differences" % len(sd))
@@ -109,11 +144,12 @@ def main():
     ap = argparse.ArgumentParser()
     ap.add_argument("--seed", type=int, default=20260925)
     ap.add_argument("--versions", default="3,5")
-    ap.add_argument("--roles", default="0")
+    ap.add_argument("--roles", default="0,1")
     ap.add_argument("--exh-len", type=int, default=5)
     ap.add_argument("--exh-limit", type=int, default=None)
     ap.add_argument("--random", type=int, default=8000)
     ap.add_argument("--qos2", type=int, default=800)
+    ap.add_argument("--quiesced", type=int, default=3000)
     ap.add_argument("--show", type=int, default=5)
     ap.add_argument("--dump-dir", default=None)
     ap.add_argument("--cases", default=None, help="file with case lines instead of generated ones")
@@ -141,6 +177,12 @@ def main():
                 for role in [int(x) for x in a.roles.split(",")]:
                     cases += G.gen_all(rng, v, role, a.exh_len, a.exh_limit, a.random, a.qos2)
             total += compare(engine, v, cases, a.show, a.dump_dir, a.sim)
+            if not a.cases and a.quiesced:
+                qc = []
+                for role in [int(x) for x in a.roles.split(",")]:
+                    qc += G.quiesced_cases(rng, v, role, a.quiesced)
+                print("-- %s: schedules driven to quiescence" % engine)
+                total += compare(engine, v, qc, a.show, a.dump_dir and a.dump_dir + "/quiesced", a.sim, stuck=True)
     except C.Broken as e:
         print("BROKEN: %s" % e)
         return 2
